@@ -130,6 +130,34 @@ def oracle_derived(line, out):
         return f"get_matrix() of the operand built by {line.split(' ')[1]} differs from the Kronecker product of its text {p}"
     return None
 
+# ---- the right operand given as a plain `str` (the API converts it): equal lengths must answer as for a PauliString,
+# unequal lengths (shorter as well as longer text) must raise ValueError, never be padded or truncated
+def str_operand_handle(line):
+    try:
+        _, p, q = line.split(" ")
+        P = impl_ps.mk(p)
+        qs = "" if q == "-" else q
+        sg = guard(lambda: impl_ps.phase_k(P.sign(qs)))
+        cm = guard(lambda: impl_ps.B(P.commutes_with(qs)))
+        c2 = guard(lambda: impl_ps.B(P | qs))
+        ml = guard(lambda: pstr(P.multiply(qs)))
+        m2 = guard(lambda: pstr(P @ qs))
+        ad = guard(lambda: impl_ps.show_opt(P.adjoint_map(qs)))
+        a2 = guard(lambda: impl_ps.show_opt(P ^ qs))
+        if c2 != cm or m2 != ml or a2 != ad:
+            return f"operators-differ: |={c2} commutes_with={cm} @={m2} multiply={ml} ^={a2} adjoint_map={ad}"
+        cj = guard(lambda: impl_ps.sgn_k(P.complex_conj()[0]))
+        return f"sign={sg} comm={cm} mul={ml} adj={ad} conj={cj}"
+    except Exception as e:
+        return exc_name(e)
+
+def oracle_str_operand(line, out):
+    _, p, q = line.split(" ")
+    p = "" if p == "-" else p
+    q = "" if q == "-" else q
+    exp = expected_pair(p, q)
+    return None if out == exp else f"pair({p or '-'}, str {q!r}) implementation says [{out}] matrices / length rule say [{exp}]"
+
 def rand_str(rng, n, w=None):
     return "".join(rng.choice("IXYZ") for _ in range(n))
 
@@ -172,6 +200,11 @@ def build_streams(rng, tier):
         else:
             strs = [rand_str(rng, n) for _ in range(40)]
         mats += [f"mat {p or '-'}" for p in strs]
+    sop = []
+    for _ in range(6000 if thorough else 1500):
+        n = rng.choice([1, 2, 2, 3, 3, 4, 6])
+        m = n if rng.random() < 0.5 else rng.choice([x for x in range(1, 8) if x != n])
+        sop.append(f"spair {rand_str(rng, n)} {rand_str(rng, m)}")
     der = []
     for _ in range(20000 if thorough else 4000):
         n = rng.choice([1, 2, 2, 3, 3, 4, 5, 8])
@@ -182,6 +215,8 @@ def build_streams(rng, tier):
     h = impl_ps.handle
     nt = lambda l, o: "I" in l or "X" in l
     return [
+        Stream("right-operand-as-str", sop, str_operand_handle, oracle_str_operand, model=False,
+               tag=lambda l, o: "str:" + ("ValueError" if "!ValueError" in o else "answered")),
         Stream("pairs-of-derived-operands", der, derived_handle, oracle_derived, model=False,
                tag=lambda l, o: "kinds:" + "+".join(sorted(t.split("~")[1] for t in l.split(" ")[1:]))[:0] + ("err" if o.startswith("!") else "ok")),
         Stream("corpus", corpus_lines(PID), h, lambda l, o: (oracle_pair if l.startswith("pair") else oracle_mat)(l, o)),
